@@ -47,6 +47,7 @@ pub struct NHistory {
     token_seen_from: HashMap<u64, HashSet<SocketAddr>>, // token -> addresses its request was presented from
     token_sessions: HashMap<u64, u32>,  // token -> sessions established with it
     token_bound: HashMap<u64, SocketAddr>, // token -> the address its MAC was first recorded for by the server
+    max_accepted: HashMap<(u8, u64), u64>, // (direction, client k) -> highest sequence accepted in the current session
     owner_crafted: bool,                 // the datagram being delivered was sealed by the owner of the token (op 155)
     delivered_to_client: HashMap<u64, HashSet<Vec<u8>>>,
 }
@@ -106,6 +107,7 @@ impl NHistory {
             token_seen_from: HashMap::new(),
             token_sessions: HashMap::new(),
             token_bound: HashMap::new(),
+            max_accepted: HashMap::new(),
             owner_crafted: false,
             delivered_to_client: HashMap::new(),
         }
@@ -310,10 +312,44 @@ impl NHistory {
         if must_be_noop {
             self.feat("inauthentic_to_server");
             if before != after {
-                self.violate("C07", format!("a datagram that is not authentic for its session changed the server state: before {} after {}", before.map(|t| t.to_text()).unwrap_or_default(), after.map(|t| t.to_text()).unwrap_or_default()));
+                self.violate("C07", format!("a datagram that is not authentic for its session changed the server state: before {} after {}", before.as_ref().map(|t| t.to_text()).unwrap_or_default(), after.as_ref().map(|t| t.to_text()).unwrap_or_default()));
             }
             if kind != 0 {
                 self.violate("C07", format!("a datagram that is not authentic for its session produced {}", obs.to_text()));
+            }
+        }
+        // C04, second half: a genuine payload is surfaced the first time it arrives on a connected session
+        // provided its sequence is less than 256 behind the highest one accepted so far
+        if let Some((k, i)) = genuine_of {
+            let is_payload = self.out_c.get(&k).and_then(|v| v.get(i)).map(|d| d.payload_of.is_some()).unwrap_or(false);
+            let tok = self.client_token.get(&k).and_then(|t| self.tokens.get(t)).cloned();
+            if let (true, Some(tok), Some((_, seq))) = (is_payload, tok, prefix_info(&data)) {
+                let session_is_ours = session_key.map(|(key, _)| key == tok.c2s).unwrap_or(false);
+                if connected_before && session_is_ours && !replayed && !self.client_token_reused(k) && data == self.out_c[&k][i].bytes {
+                    let first_time = self.out_c[&k][i].delivered_unmodified == 1;
+                    let highest = self.max_accepted.get(&(0, k)).copied();
+                    let in_window = highest.map(|h| seq + 256 > h).unwrap_or(true);
+                    if first_time && in_window && kind != 2 {
+                        self.violate("C04", format!("a genuine payload datagram of client {} (sequence {}, highest accepted {:?}) arrived for the first time on its connected session and was not surfaced", k, seq, highest));
+                    }
+                }
+                if kind == 2 {
+                    let e = self.max_accepted.entry((0, k)).or_insert(0);
+                    if seq > *e {
+                        *e = seq;
+                    }
+                }
+            }
+            // keep-alives and disconnects move the window too
+            if kind != 2 && opens && !replayed {
+                if let Some((ty, seq)) = prefix_info(&data) {
+                    if ty >= 4 && after != before {
+                        let e = self.max_accepted.entry((0, k)).or_insert(0);
+                        if seq > *e {
+                            *e = seq;
+                        }
+                    }
+                }
             }
         }
         self.handle_server_result(&obs, genuine_of);
@@ -365,6 +401,7 @@ impl NHistory {
                     self.log_server_out(p.to_vec(), a, None);
                 }
                 self.feat("client_connected");
+                self.max_accepted.clear();
                 if self.connected.contains_key(&id) {
                     self.violate("C10", format!("ClientConnected for id {} which is already connected", id));
                 }
